@@ -62,8 +62,8 @@ func c12QueueGen(r *Run) {
 			g.queue(n, "pingpong", p)
 		}
 	}
-	for _, k := range []int{49, 50, 51, 52} {
-		g.queue(k+40, fmt.Sprintf("stall%d", k), 4)
+	for _, k := range []int{49, 50, 51, 52, 1100, 2100, 4200} {
+		g.queue(k+300, fmt.Sprintf("stall%d", k), 4)
 	}
 	for _, lat := range c13Lats {
 		g.queue(300+r.Rng.Intn(900), lat, Pick(r.Rng, []int{1, 2, 4, 8}))
